@@ -150,6 +150,8 @@ class Variant:
             lines.append("  restat = 1")
         if s.generator and not getattr(s, "generator_at_build", False):
             lines.append("  generator = 1")
+        if s.dyndep and getattr(s, "dyndep_at_rule", False):
+            lines.append("  dyndep = " + s.dyndep)     # bound in the rule block: the build statement has no block of its own
         if s.rsp:
             lines.append("  rspfile = " + s.rsp[0])
             # a literally empty value is rejected by the parser; an empty *evaluated* content is legal
@@ -177,7 +179,7 @@ class Variant:
         lines = [l]
         if s.pool:
             lines.append("  pool = " + s.pool)
-        if s.dyndep:
+        if s.dyndep and not getattr(s, "dyndep_at_rule", False):
             lines.append("  dyndep = " + s.dyndep)
         if s.generator and getattr(s, "generator_at_build", False):
             lines.append("  generator = 1")     # bound in the build block: the rule itself says nothing
